@@ -7,17 +7,18 @@ def main(tier):
     c.set_deadline(1500 if quick else 3300)
     c.build('plain', ['lcx'])
     if quick:
-        c.run_family('plain', 'c20.py', 'ext', args=['--n=2'], per_case_timeout=30, chunk=40, nsamples=2)
+        c.run_family('plain', 'c20.py', 'ext', args=['--n=2', '--lean=1'], per_case_timeout=30, chunk=40, nsamples=2)
     else:
         c.run_family('plain', 'c20.py', 'ext', args=['--n=3', '--edges=1'], per_case_timeout=30, chunk=150, nsamples=2)
     return c.finish(
         rule='every dependency graph on n variables (quick n <= 2 complete; thorough n <= 3 with at most one read edge per model for n = 3) x every placement over two connected components x every '
              'marking of <= 2 variables as external (home variable of each class incl. states, constants, computed constants, algebraic and NLA unknowns; a non-primary twin; both twins; the VOI; '
              'a variable outside the model) x every declared dependency of <= 1 other variable (each legal one, itself, a foreign variable), plus every under-constrained variant whose dropped '
-             'equation defines the marked variable; judged = markings analysed and compared with the unmarked analysis and the construction, and whose generated C and Python ran with a recording callback',
+             'equation defines the marked variable; plus (n = 3) every single marking with TWO declared dependencies living in different components, also with names shared across components; (quick: no self-reading states / guessed unknowns in the n <= 2 part); judged = markings analysed and compared with the unmarked analysis and the construction, and whose generated C and Python ran with a recording callback',
         assumptions=[
             'the callback returns a fixed value per external variable; dependency order is judged at the LAST invocation for an external variable (initialiseVariables may call the callback before computed constants exist)',
             'a marking whose class the analyser itself treats as primary (its AnalyserVariable::variable() is the marked twin) needs no message',
             'markings that remove every state of the model are run but not judged (the variable of integration is left dangling; the statement does not say what that model is)',
             'declared dependencies are chosen among variables that do not themselves depend on the marked variable; dependencies on states are not generated',
+            'implicit equations whose unknown carries an initial guess read no other variable: next to another variable CellML cannot tell a guess from a constant, libcellml resolves it by equation order and, by design, discards an equation all of whose unknowns are external - no reading-independent oracle exists there (tried and withdrawn, see DESIGN 8.4)',
         ])
